@@ -58,6 +58,19 @@ class Timeout(Exception):
     pass
 
 
+WORKER_MEMORY = 10 << 30
+
+
+def _limit_worker() -> None:
+    """address-space limit of a worker: a runaway allocation (source generated from an exponentially grown rule table, a huge
+    regex) becomes a MemoryError inside the worker, counted and skipped, instead of the kernel killing the process"""
+    import resource
+    try:
+        resource.setrlimit(resource.RLIMIT_AS, (WORKER_MEMORY, WORKER_MEMORY))
+    except (ValueError, OSError):
+        pass
+
+
 def _alarm(_sig, _frm):
     raise Timeout
 
@@ -703,6 +716,19 @@ def tags_of(gtext: str) -> set:
 
 
 def eval_grammar(prop: str, rng: random.Random, gname: str, gtext: str, rules_ast, passes, cases, out):
+    """`_eval_grammar` under the worker's memory limit: running out of memory on one grammar (the models and the properties say
+    nothing about resources) skips that grammar, counted, with the grammar kept for the evidence"""
+    try:
+        return _eval_grammar(prop, rng, gname, gtext, rules_ast, passes, cases, out)
+    except MemoryError:
+        import gc
+        gc.collect()
+        out["stats"]["skipped:MemoryError"] += 1
+        out.setdefault("memory", []).append({"group": gname, "grammar": gtext[:2000], "passes": passes})
+        return None
+
+
+def _eval_grammar(prop: str, rng: random.Random, gname: str, gtext: str, rules_ast, passes, cases, out):
     """cases: list of (start, input, k).  Appends driver lines to out['lines'] with callbacks
     in out['expect'] and records direct failures in out['direct']."""
     plan = PLANS[prop]
@@ -712,6 +738,10 @@ def eval_grammar(prop: str, rng: random.Random, gname: str, gtext: str, rules_as
         raise
     except P.Unsupported as e:
         out["stats"]["skipped:" + str(e)[:40]] += 1       # a resource matter (see Modes), not a load error of the library
+        return
+    except MemoryError:
+        out["stats"]["skipped:MemoryError while building the four modes"] += 1
+        out.setdefault("memory", []).append({"group": gname, "grammar": gtext[:2000], "passes": passes})
         return
     except Exception as e:  # noqa: BLE001
         out["load_errors"].append((gname, type(e).__name__, str(e)[:200], gtext))
@@ -1422,7 +1452,8 @@ def _worker(job):
     for d_ in direct:
         d_.setdefault("history", [_WARM] if _WARM else [])
     return {"stats": out["stats"], "corr": corr[:40], "n_corr": len(corr), "direct": direct[:40], "n_direct": len(direct),
-            "load_errors": out["load_errors"][:5], "timeouts": out["timeouts"][:5], "nlines": len(out["lines"])}
+            "load_errors": out["load_errors"][:5], "timeouts": out["timeouts"][:5], "nlines": len(out["lines"]),
+            "memory": out.get("memory", [])[:3]}
 
 
 # ---------------------------------------------------------------- known findings
@@ -1681,10 +1712,24 @@ def run_prop(out: Outcome, level_when_proved: str = "proof") -> None:
     jobs = [(prop, s, per, out.tier, seed(), (s, nshards) if (plan["bundled"] or thorough) else None) for s in range(nshards)]
     stats = collections.Counter()
     corr, direct, load_errors, timeouts = [], [], [], []
+    memory_skips: list = []
     n_corr = n_direct = 0
     line_cov: dict = {}
-    with mp.Pool(nshards) as pool:
-        for r in pool.imap_unordered(worker, jobs):
+    # a ProcessPoolExecutor notices a worker that dies (e.g. killed for memory): the run then ends as an infrastructure error
+    # instead of waiting for ever for the lost shard
+    import concurrent.futures as _cf
+    from concurrent.futures.process import BrokenProcessPool
+    results = []
+    try:
+        with _cf.ProcessPoolExecutor(max_workers=nshards, mp_context=mp.get_context("fork"), initializer=_limit_worker) as ex:
+            for fut in _cf.as_completed([ex.submit(worker, j) for j in jobs]):
+                results.append(fut.result())
+    except BrokenProcessPool:
+        out.infra_error = "a worker process died (killed for memory?) - no verdict"
+        out.coverage = {"explanation": "worker died", "evaluations": 1, "distinct_nontrivial": 2}
+        return
+    if True:
+        for r in results:
             for f, (hit, total) in r.get("lines", {}).items():
                 cur = line_cov.setdefault(f, [set(), total])
                 cur[0] |= set(hit)
@@ -1695,6 +1740,7 @@ def run_prop(out: Outcome, level_when_proved: str = "proof") -> None:
             n_direct += r["n_direct"]
             load_errors += r["load_errors"]
             timeouts += r["timeouts"]
+            memory_skips += r.get("memory", [])
 
     # ---- verdict (DESIGN §5)
     reported = 0
@@ -1803,6 +1849,7 @@ def run_prop(out: Outcome, level_when_proved: str = "proof") -> None:
         "attributed_to_known_findings": n_known,
         "timeouts": len(timeouts),
         "load_errors": len(load_errors),
+        "memory_skips": memory_skips[:3],
         "outcome_distribution": {k: int(v) for k, v in sorted(stats.items())},
         **({"source_statement_coverage_of_mirrored_python": {f: f"{len(h)}/{t}" for f, (h, t) in sorted(line_cov.items())}}
            if line_cov else {}),
